@@ -26,6 +26,7 @@ Fixpoint enc_gval (g : Values.gval) : bytes :=
   | Values.GBool true => [116]%N                                       (* t *)
   | Values.GBool false => [102]%N                                      (* f *)
   | Values.GInt z => 105%N :: dec_of_Z z ++ [59]%N                     (* i<z>; *)
+  | Values.GInt64 z => 73%N :: dec_of_Z z ++ [59]%N                    (* I<z>; : int64 (LongInt) *)
   | Values.GFloat d => let d' := Values.f64_norm d in
                        100%N :: dec_of_Z (Values.fm d') ++ 101%N :: dec_of_Z (Values.fe d') ++ [59]%N   (* d<m>e<e>; *)
   | Values.GString s => 115%N :: enc_len (length s) ++ 58%N :: s       (* s<len>:<bytes> *)
